@@ -20,7 +20,7 @@ Proof.
   intros Hv Hd Hx Hn Hy. pose proof (valid_hdr_ok _ _ Hv) as Hok.
   assert (Hk : (y / 64 < h_width h)%nat) by (apply width_pos; [assumption|lia]).
   destruct (dom_facts h fl mem x (y / 64) Hv Hd Hx Hk) as (Hp & Hri & Hra & Hbig & Hii).
-  destruct Hd as (D1 & D2 & D3 & D4 & D5).
+  destruct Hd as (D1 & D2 & D3 & D4 & D5 & D6).
   repeat split; try lia.
   intros Hs. assert (Hk1 : (y / 64 + 1 < h_width h)%nat).
   { assert ((y + n - 1) / 64 < h_width h)%nat by (apply width_pos; [assumption|lia]). lia. }
@@ -37,7 +37,7 @@ Theorem acc_xor_bits_w h fl mem x y n v m' :
 Proof.
   intros Hv Hd Hx Hn Hy Hvv Hw. pose proof (valid_mem_ok _ _ Hv) as Hm.
   destruct (range_facts h fl mem x y n Hv Hd Hx Hn Hy) as (Hp & Hp1 & Hri & Hra & Hbig & Hii & Hyy).
-  pose proof Hd as (D1 & D2 & D3 & D4 & D5). pose proof (w64_of_N v Hvv) as Hvz.
+  pose proof Hd as (D1 & D2 & D3 & D4 & D5 & D6). pose proof (w64_of_N v Hvv) as Hvz.
   unfold w_xor_bits in Hw. rewrite rd_ok in Hw by assumption. cbn [WMat.bind] in Hw.
   rewrite wr_ok in Hw by assumption. cbn [WMat.bind] in Hw.
   unfold hbundle.
@@ -65,7 +65,7 @@ Theorem acc_clear_bits_w h fl mem x y n m' :
 Proof.
   intros Hv Hd Hx Hn Hy Hw. pose proof (valid_mem_ok _ _ Hv) as Hm.
   destruct (range_facts h fl mem x y n Hv Hd Hx Hn Hy) as (Hp & Hp1 & Hri & Hra & Hbig & Hii & Hyy).
-  pose proof Hd as (D1 & D2 & D3 & D4 & D5).
+  pose proof Hd as (D1 & D2 & D3 & D4 & D5 & D6).
   unfold w_clear_bits in Hw. rewrite shr64_ok in Hw by lia. cbn [WMat.bind] in Hw.
   rewrite rd_ok in Hw by assumption. cbn [WMat.bind] in Hw.
   rewrite wr_ok in Hw by assumption. cbn [WMat.bind] in Hw.
@@ -111,7 +111,7 @@ Theorem acc_and_bits_w h fl mem x y n v m' :
 Proof.
   intros Hv Hd Hx Hn Hy Hvv Hw. pose proof (valid_mem_ok _ _ Hv) as Hm.
   destruct (range_facts h fl mem x y n Hv Hd Hx Hn Hy) as (Hp & Hp1 & Hri & Hra & Hbig & Hii & Hyy).
-  pose proof Hd as (D1 & D2 & D3 & D4 & D5). pose proof (w64_of_N v Hvv) as Hvz.
+  pose proof Hd as (D1 & D2 & D3 & D4 & D5 & D6). pose proof (w64_of_N v Hvv) as Hvz.
   unfold w_and_bits in Hw. rewrite shr64_ok in Hw by lia. cbn [WMat.bind] in Hw.
   rewrite rd_ok in Hw by assumption. cbn [WMat.bind] in Hw.
   rewrite wr_ok in Hw by assumption. cbn [WMat.bind] in Hw.
